@@ -778,4 +778,37 @@ theorem drop_unregisters : Statement_drop_unregisters := by
     | nil => rfl
     | cons g rest ih => rw [List.foldl_cons, ih]; rfl
 
+/-! ### grouping quads by graph loses none -/
+
+/-- Grouping the written quad patterns into blocks (default-graph triples / one block per run of a GRAPH
+    term, the same graph possibly in several blocks) and flattening the blocks again gives back exactly the
+    written quads, in order: no block of a repeated graph is dropped. -/
+def Statement_grouping_loses_none : Prop :=
+  ∀ (ps : List (TPat × GTerm)),
+    blocksToTpl (groupBlocks ps) = ps.map (fun q => ((q.1.1.toT, q.1.2.1.toT, q.1.2.2.toT), q.2))
+
+theorem grouping_loses_none : Statement_grouping_loses_none := by
+  intro ps
+  induction ps with
+  | nil => rfl
+  | cons q rest ih =>
+    obtain ⟨t, g⟩ := q
+    simp only [groupBlocks, List.map_cons]
+    rw [← ih]
+    cases h : groupBlocks rest with
+    | nil => simp [blocksToTpl]
+    | cons b bs =>
+      obtain ⟨g', ts⟩ := b
+      simp only
+      split
+      · next e => subst e; simp [blocksToTpl]
+      · simp [blocksToTpl]
+
+/-- non-vacuity: `GRAPH g { a } . d . GRAPH g { b }` keeps both blocks of `g` -/
+example :
+    let a : TPat := (.var 40, .const (.iri 4), .var 41)
+    let b : TPat := (.var 42, .const (.iri 4), .var 40)
+    groupBlocks [(a, .name 90), (b, .dflt), (b, .name 90)] = [(.name 90, [a]), (.dflt, [b]), (.name 90, [b])] := by
+  decide
+
 end RV.C10
